@@ -37,6 +37,20 @@ def bounds(tier):
     return {"program_statements_k": 1 if tier == "quick" else 2, "formats": FORMATS, "corpus": "all .pyc under test/bytecode_* (<= 30 KB)"}
 
 
+# every host lists the compiled programs of its own version (native path) in all six formats; cross-version listings on the
+# other hosts are compared host against host in C07 (classic and extended, all six hosts); corpus and pydisasm run on the
+# primary host
+SECONDARY_KINDS = ("prog",)
+
+
+def hosts(tier):
+    return common.HOSTS
+
+
+def workers_for_host(tier, host):
+    return 10 if host == common.PRIMARY else {"3.8": 1, "3.9": 1}.get(host, 2)
+
+
 def prepare(tier):
     k = 1 if tier == "quick" else 2
     return {"progs": common.datasets("progs", common.REFS, k), "tier": tier}
@@ -44,8 +58,13 @@ def prepare(tier):
 
 def cases(plan, tier, shard, nshards, host):
     for v in common.REFS:
+        if host != common.PRIMARY and v != host:
+            continue
+        native_only_scopes = ("@module", "@function") if (host != common.PRIMARY and tier == "quick") else None
         for idx, rec in common.read_dataset(plan["progs"][v], shard, nshards):
             if idx >= 0:
+                if native_only_scopes and not rec["id"].endswith(native_only_scopes):
+                    continue
                 if tier == "quick" and len(rec["pyc"]) > 4000 and not rec["id"].endswith("@module"):
                     continue  # long bodies: one scope in quick (xdis's iterator is quadratic), all four in thorough
                 yield {"kind": "prog", "ver": rec["ver"], "id": rec["id"], "pyc": rec["pyc"],
